@@ -638,6 +638,10 @@ func opcodeCheckLockTimeVerify(op *ParsedOpcode, t *thread) error {
 	//
 	// PeekByteArray is used here instead of PeekInt because we do not want
 	// to be limited to a 4-byte integer for reasons specified above.
+	if t.tx == nil {
+		return errs.NewError(errs.ErrInvalidParams, "tx must be supplied for checklocktimeverify")
+	}
+
 	so, err := t.dstack.PeekByteArray(0)
 	if err != nil {
 		return err
